@@ -14,6 +14,9 @@ def reg(pid, technique, text, note, cat="proof"):
 
 
 exec(open(os.path.join(HERE, "tools", "manifest_table.py")).read())
+import glob
+for _f in sorted(glob.glob(os.path.join(HERE, "tools", "manifest.d", "*.py"))):
+    exec(open(_f).read())
 
 NOT_BUILT = {}
 checks = []
